@@ -286,6 +286,8 @@ class AbsExec:
                         return r
                 return Adt(rv["adt"], rv["variant_name"], ops)
             if rv["agg"] == "closure":
+                if hasattr(self.domain, "on_closure"):
+                    self.domain.on_closure(self, fr, rv["closure"], ops)
                 return Adt("closure:" + rv["closure"], None, ops)
             return TOP
         if k == "discr":
